@@ -1,6 +1,8 @@
-"""Copy verified seeds from /tmp/seeds into /verif/seeded/<Cxx-a>/ and record what detects them.
+"""Copy verified seeds into /verif/seeded/<Cxx-y>/ and record what detects them.
 
-usage: import_seeds.py            (reads /tmp/seeds/verify.log; only fully confirmed seeds are kept)
+usage: import_seeds.py <verify.log> <seed root> [suffix map like a=e,b=f]
+  verify.log lines come from tools/verify_seed.sh; only fully confirmed seeds are kept (patch applies, demo exits 0
+  on the unchanged tree and non-zero with the change, existing tests still pass apart from the 3 environment failures).
 """
 import json
 import re
@@ -11,33 +13,39 @@ from pathlib import Path
 sys.path.insert(0, "/verif")
 from lcmsa import registry, selftest  # noqa: E402
 
-LOG = Path("/tmp/seeds/verify.log")
+LOG = Path(sys.argv[1])
+ROOT = Path(sys.argv[2])
+REN = dict(kv.split("=") for kv in sys.argv[3].split(",")) if len(sys.argv) > 3 else {}
 OUT = Path("/verif/seeded")
 OUT.mkdir(exist_ok=True)
-for line in LOG.read_text().splitlines():
-    m = re.match(r"(C\d\d)_([ab]) demo_clean=(\d+) demo_mut=(\d+) failed=(\d+) known=(\d+) :: (.*)", line)
+text = LOG.read_text().replace("\r", "\n")
+for line in text.splitlines():
+    m = re.search(r"(C\d\d)_([a-z]) demo_clean=(\d+) demo_mut=(\d+) failed=(\d+) known=(\d+) :: (.*)", line)
     if not m:
         continue
     pid, ab, clean, mut, failed, known, summary = m.groups()
     ok = clean == "0" and mut != "0" and failed == known and "passed" in summary
-    src = Path(f"/tmp/seeds/{pid}/{ab}")
-    dst = OUT / f"{pid}-{ab}"
+    src = ROOT / pid / ab
+    dst = OUT / f"{pid}-{REN.get(ab, ab)}"
     if not ok:
-        print("REJECTED", line)
+        print("REJECTED", line.strip())
         continue
     dst.mkdir(exist_ok=True)
     shutil.copy(src / "patch.diff", dst / "patch.diff")
     shutil.copy(src / "demo.py", dst / "demo.py")
     meta = json.loads((src / "meta.json").read_text())
-    r = selftest._run_variant(({"id": dst.name, "kind": "patch", "patch": str(dst / "patch.diff")}, sorted(registry.PROPERTIES)))
+    r = selftest._run_variant(({"id": dst.name, "kind": "patch", "patch": str(dst / "patch.diff")}, sorted(registry.PROPERTIES)))  # noqa: SLF001
     meta["property"] = pid
     meta["confirmed"] = {
         "by": "tools/verify_seed.sh in a scratch worktree of /repo HEAD (removed afterwards)",
         "demo_exit_unchanged_tree": int(clean), "demo_exit_with_change": int(mut),
-        "existing_tests_with_change": summary + " (the 3 failures are the known environment failures of the unchanged tree)",
+        "existing_tests_with_change": summary.strip() + " (the 3 failures are the known environment failures of the unchanged tree)",
     }
     meta["detected_by"] = r.get("fired", [])
     meta["detecting_obligations"] = r.get("keys", [])
     meta["undecided"] = r.get("undecided", [])
+    if not meta["detected_by"]:
+        meta["undecided_by"] = sorted({u.split(":")[0] for u in meta["undecided"]})
     (dst / "meta.json").write_text(json.dumps(meta, indent=1) + "\n")
-    print(dst.name, "detected_by", meta["detected_by"], "" if pid in meta["detected_by"] else "<-- NOT by its own property")
+    print(dst.name, "detected_by", meta["detected_by"] or f"UNDECIDED {meta.get('undecided_by')}",
+          "" if pid in meta["detected_by"] else "<-- NOT by its own property")
